@@ -55,6 +55,7 @@ func runC03(c *Config, r *Report) {
 	}
 	c12R32(ic, r, "R03.22")
 	c03R23(ic, r)
+	c03R24(ic, r)
 	c03R2(ic, r)
 	c03R3(ic, r)
 	c03R4(ic, r)
@@ -733,6 +734,26 @@ func c03R5(ic *IC, r *Report) {
 		var condText string
 		for _, s := range sites {
 			path := enclosingPath(fi.Decl.Body, s)
+			// a reset to 0 in the case that handles the constDecl kind itself (the start of a
+			// declaration, R03.24) is not an advance of the counter
+			if as, ok := s.(*ast.AssignStmt); ok && len(as.Rhs) == 1 {
+				if l, ok := unparen(as.Rhs[0]).(*ast.BasicLit); ok && l.Value == "0" {
+					start := false
+					for i := len(path) - 1; i >= 0; i-- {
+						if cc, ok := path[i].(*ast.CaseClause); ok {
+							if ls := kindLabels(ic, cc); len(ls) == 1 && ls[0] == "constDecl" {
+								start = true
+							}
+							if len(kindLabels(ic, cc)) > 0 {
+								break
+							}
+						}
+					}
+					if start {
+						continue
+					}
+				}
+			}
 			var ifs *ast.IfStmt
 			for i := len(path) - 1; i >= 0; i-- {
 				if x, ok := path[i].(*ast.IfStmt); ok {
